@@ -40,6 +40,14 @@ def _extra():
         add("plusplus16", "short s;", "s--;", {"init16": {"s": v}, "expect16": {"s": (v - 1) & 0xffff}}, "s=%d" % v)
         add("plusplus16-then-test", "short s; unsigned char z;", "z = 0; s--; if (s != 0) z = 1;", {"init16": {"s": v}, "expect": {"z": int(((v - 1) & 0xffff) != 0)}}, "s=%d" % v)
         add("plusplus16-then-test", "short s; unsigned char z;", "z = 0; s++; if (s == 0) z = 1;", {"init16": {"s": v}, "expect": {"z": int(((v + 1) & 0xffff) == 0)}}, "s=%d" % v)
+    # post-increment / post-decrement take effect exactly once, after the value is used, wherever the expression stands
+    for j in (0, 5, 7):
+        add("deferred-plusplus", "unsigned char j, k, n;", "n = 0; for (k = j++; k != 8; k++) n++;", {"init": {"j": j}, "expect": {"j": (j + 1) & 255, "n": (8 - j) & 255, "k": 8}}, "j=%d" % j)
+        add("deferred-plusplus", "unsigned char j, k, n;", "n = 0; k = j++; while (k != 8) { n++; k++; }", {"init": {"j": j}, "expect": {"j": (j + 1) & 255, "n": (8 - j) & 255}}, "j=%d" % j)
+        add("deferred-plusplus", "unsigned char j, k, n;", "n = 0; for (j--; n != 3; n++) k = j;", {"init": {"j": j}, "expect": {"j": (j - 1) & 255, "k": (j - 1) & 255, "n": 3}}, "j=%d" % j)
+        add("deferred-plusplus-in-if-condition", "unsigned char j, k, n;", "n = 0; if (j++ == 5) n = 1; k = j;", {"init": {"j": j}, "expect": {"n": int(j == 5), "k": (j + 1) & 255}}, "j=%d" % j)
+        add("deferred-plusplus", "unsigned char j, k, arr[10];", "arr[5] = 1; arr[6] = 2; arr[7] = 3; X = j; k = arr[X++]; j = X;", {"init": {"j": 5}, "expect": {"k": 1, "j": 6}}, "")
+        add("deferred-plusplus-in-dowhile-condition", "unsigned char j, k, n;", "n = 0; do { n++; } while (j-- != 0);", {"init": {"j": j}, "expect": {"n": j + 1, "j": 255}}, "j=%d" % j)
     # loops: for / while / do-while agree
     for n in (0, 1, 5, 200):
         tot = sum(range(n)) & 255
@@ -127,9 +135,9 @@ def _group_of(src):
 
 def corpus(tier):
     """[(group name, properties, [programs])]: every program at -O0 (C01, C15) and at -O1 (C02)."""
-    from . import u_condex, u_cond16, u_arithm, u_assign
+    from . import u_condex, u_cond16, u_arithm, u_assign, u_shift
     groups = {}
-    for mod in (u_condex, u_cond16, u_arithm):
+    for mod in (u_condex, u_cond16, u_arithm, u_shift):
         for c in mod.candidates(None):
             groups.setdefault(_group_of(c["source"]), []).append(c)
     for c in u_assign.candidates(None):
